@@ -414,6 +414,9 @@ func concBody(x *Exec, raw json.RawMessage) {
 	if has(p.Oracles, "noclobber") {
 		checkNoClobber(x, r, p, recs, contents)
 	}
+	if has(p.Oracles, "volunteered") {
+		checkVolunteered(x, r, p, recs, contents)
+	}
 	if has(p.Oracles, "lin") {
 		checkLinearizable(x, r, p, setupRecs, recs, nAtomicSetup)
 	}
@@ -517,6 +520,35 @@ func concBody(x *Exec, raw json.RawMessage) {
 			physical[n.Key] = n.Value
 		}
 		checkLedger(x, r, p, append(append([]opRec{}, setupRecs...), flat(recs)...), physical)
+	}
+
+	// last (it changes the cache): the bound "including after the maximum is lowered at run time". The maximum is
+	// lowered to 1 and then to 0: an entry that the eviction policy has lost track of (counted but in no queue, or in a
+	// queue but not counted) survives the inserts above within the bound and shows only now.
+	if has(p.Oracles, "bound") && (p.Cfg.MaxSize > 0 || p.Cfg.MaxWeight > 0) {
+		for _, m := range []uint64{1, 0} {
+			c.SetMaximum(m)
+			r.RunDeferred(0)
+			c.CleanUp()
+			r.RunDeferred(0)
+			var sum, probed uint64
+			var left []string
+			for k, v := range c.All() {
+				sum += weightOf(p.Cfg, v)
+				left = append(left, fmt.Sprintf("%d=%d", k, v))
+			}
+			for k := 0; k < 32; k++ {
+				if v, ok := c.GetIfPresent(k); ok {
+					probed += weightOf(p.Cfg, v)
+				}
+			}
+			x.Count("lowered-maximum-checks")
+			if sum > m || probed > m {
+				sort.Strings(left)
+				x.Fail("bound-exceeded", "lowered-maximum@"+p.Label, "after SetMaximum(%d) and CleanUp at quiescence the entries present weigh %d (lookups: %d): %v", m, sum, probed, left)
+				break
+			}
+		}
 	}
 }
 
